@@ -950,19 +950,19 @@ func c25(c *an.Check) {
 
 func init() {
 	register(&Def{ID: "C22", Run: c22,
-		Explain:     "Decides on SSA for the relay's Session: (MUSTCALL) every critical section that changes a peer slot (attach; detach in the deferred cleanup) increments the epoch, wakes the waiters and clears the partner's pending delivery before it unlocks; (WAITCH) the attaching call obtains its wait channel before broadcasting its own registration, so it evaluates the session state instead of sleeping through its own event; (PTRCMP) the Opened/Closed announcement decision does not compare pointers into the shared epoch field (value-blind change detection); (LOCKSET) the epoch and all tracker fields, including dereferences of pointers to them, are touched only under Server.mtx. (PTRCMP) the saved epoch compared against the current one cannot alias the current epoch variable (a shared cell must be allocated per loop iteration); (MUSTCALL) the client's open handler discards the previous epoch's inbox; (GATE) a session tracker is dropped only when both endpoints are detached.",
+		Explain:     "Decides on SSA for the relay's Session: (MUSTCALL) every critical section that changes a peer slot (attach; detach in the deferred cleanup) increments the epoch, wakes the waiters and clears the partner's pending delivery before it unlocks; (WAITCH) the attaching call obtains its wait channel before broadcasting its own registration, so it evaluates the session state instead of sleeping through its own event; (PTRCMP) the Opened/Closed announcement decision does not compare pointers into the shared epoch field (value-blind change detection); (LOCKSET) the epoch and all tracker fields, including dereferences of pointers to them, are touched only under Server.mtx. (PTRCMP) the saved epoch compared against the current one cannot alias the current epoch variable (a shared cell must be allocated per loop iteration); (MUSTCALL) the client's open handler discards the previous epoch's inbox; (GATE) a session tracker is dropped only when both endpoints are detached. broadcast() closes an existing wait channel unconditionally and the epoch / nonce counters are 64 bits wide; the client's close handler is armed as a deferred call.",
 		NotCov:      "the announcement-order history over all interleavings, and delivery across epochs end-to-end.",
 		Assumptions: commonAssumptions})
 	register(&Def{ID: "C23", Run: c23,
-		Explain:     "Decides a necessary condition of progress only (no lost wake-up): every blocking wait in the server's Session/Listen and the client's execute/Send/Recv takes a channel that comes from the wait-channel getter of the guarded state and, inside loops, is re-obtained (or the variable reset) in every iteration; the attaching server call takes its channel before its own broadcast; guarded state is only touched under its guard on both sides (LOCKSET). (OWNCHECK) the client mailbox protocol: Send keeps 'I transmitted' across a re-open and the close handler empties the slot; (GATE) a session tracker is dropped only with both endpoints detached and a peer tracker only when it neither listens nor is wanted.",
+		Explain:     "Decides a necessary condition of progress only (no lost wake-up): every blocking wait in the server's Session/Listen and the client's execute/Send/Recv takes a channel that comes from the wait-channel getter of the guarded state and, inside loops, is re-obtained (or the variable reset) in every iteration; the attaching server call takes its channel before its own broadcast; guarded state is only touched under its guard on both sides (LOCKSET). (OWNCHECK) the client mailbox protocol: Send keeps 'I transmitted' across a re-open and the close handler empties the slot; (GATE) a session tracker is dropped only with both endpoints detached and a peer tracker only when it neither listens nor is wanted. (CALLARG) per-peer client routines are built with keyed.WithBackoff; (MUSTCALL) the controller deletes a listen-session entry whenever it releases it; wake helpers as in C22; no lock leak.",
 		NotCov:      "liveness itself: fairness and eventualities are outside static analysis. The client Send stall after a re-open with a message in flight (DESIGN D6) is NOT detected by these rules.",
 		Assumptions: commonAssumptions})
 	register(&Def{ID: "C24", Run: c24,
-		Explain:     "Decides on SSA: (CONSTFIELD) the 'listening' flag that keeps a live listener's tracker from being released is assigned true by Listen before it first unlocks; (R1) the release helper deletes a peer tracker only when listening is false and nobody wants the peer; (WHO) Server.peers is mutated only by the get-or-create and release helpers; Listen's diff loop tests sent[id] for ids ranged from wantPeers and wantPeers[id] for ids ranged from the sent set, and updates the sent set only after the corresponding Send succeeded; Session inserts its want once and deletes it in its cleanup; waits are lost-wake-up free; LOCKSET on Server.mtx. (GATE) the cleanup withdraws the want only while this call is still the registered one; a peer tracker is dropped only when it neither listens nor is wanted.",
+		Explain:     "Decides on SSA: (CONSTFIELD) the 'listening' flag that keeps a live listener's tracker from being released is assigned true by Listen before it first unlocks; (R1) the release helper deletes a peer tracker only when listening is false and nobody wants the peer; (WHO) Server.peers is mutated only by the get-or-create and release helpers; Listen's diff loop tests sent[id] for ids ranged from wantPeers and wantPeers[id] for ids ranged from the sent set, and updates the sent set only after the corresponding Send succeeded; Session inserts its want once and deletes it in its cleanup; waits are lost-wake-up free; LOCKSET on Server.mtx. (GATE) the cleanup withdraws the want only while this call is still the registered one; a peer tracker is dropped only when it neither listens nor is wanted. Signaling codec sanity (a withdrawal never travels as an announcement); client retry/reset obligations as in C23.",
 		NotCov:      "eventual equality of announced and wanting sets over all histories (a liveness/model statement).",
 		Assumptions: commonAssumptions})
 	register(&Def{ID: "C25", Run: c25,
-		Explain:     "Decides on SSA: an older Listen returns an error once the tracker's nonce differs from the one it registered, and a new Listen bumps the nonce of an existing tracker before unlocking; Session returns an error once its peer slot holds another call; both deferred cleanups call the release helpers only when still the registered call and under Server.mtx; peers/sessions maps are mutated only through get-or-create / maybe-release helpers (WHO); a session tracker is deleted only when both slots are empty; (ROLE) the session key is the (min,max) ordered pair under strings.Compare with a flag telling the caller's side; LOCKSET. (GATE) the Listen cleanup acts only when the registered tracker is the very tracker of this call and the nonce is unchanged; (PROVENANCE) the tracker released by Session's cleanup is the destination's; release predicates as in C23.",
+		Explain:     "Decides on SSA: an older Listen returns an error once the tracker's nonce differs from the one it registered, and a new Listen bumps the nonce of an existing tracker before unlocking; Session returns an error once its peer slot holds another call; both deferred cleanups call the release helpers only when still the registered call and under Server.mtx; peers/sessions maps are mutated only through get-or-create / maybe-release helpers (WHO); a session tracker is deleted only when both slots are empty; (ROLE) the session key is the (min,max) ordered pair under strings.Compare with a flag telling the caller's side; LOCKSET. (GATE) the Listen cleanup acts only when the registered tracker is the very tracker of this call and the nonce is unchanged; (PROVENANCE) the tracker released by Session's cleanup is the destination's; release predicates as in C23. wake helpers (unconditional broadcast, 64-bit counters) and epoch sections shared with C22/C23.",
 		NotCov:      "emptiness of the maps at quiescence for all histories.",
 		Assumptions: commonAssumptions})
 }
